@@ -10,7 +10,7 @@ SPEC = dict(
          "Distinct+non-trivial = distinct value with at least two paths, array of length >= 2, or string of >= 2 bytes.",
     level_text="For every value: tojson|fromjson, to_entries|from_entries (objects), [tostream]|fromstream(.[]) and fromstream(tostream) reproduce it; "
                "[paths] equals the harness's pre-order path list; for every path p getpath(p) equals the harness's getpath, setpath(p; getpath(p)) reproduces "
-               "the value, and setpath(p;\"N\"), `p = \"N\"`, `p |= \"N\"` differ from the input at exactly p (tree diff); sort/unique outputs are ordered "
+               "the value, and setpath(p;\"N\"), `p = \"N\"`, `p |= \"N\"` differ from the input at exactly p (tree diff); the same holds when an array element is addressed by its negative index (i - length) in getpath, setpath and `=`; sort/unique outputs are ordered "
                "(strictly for unique) under the harness's implementation of jq's total order and are a permutation / deduplication of the input; "
                "@base64|@base64d reproduces every string and @uri decodes (own percent-decoder, which rejects anything but unreserved ASCII and %XX) to the "
                "original bytes. All on jq::eval::<_, JqSemantics> and on jq::eval_generic::eval_with_cursor.",
